@@ -72,6 +72,7 @@ type rw struct {
 	fn      string
 	owned   map[types.Object]bool // receiver and parameters of the enclosing declared function
 	tmpN    int
+	comm    map[ast.Node]bool // communication statements of select clauses: rewritten with their select
 }
 
 // Instrument rewrites the module rooted at dir (a scratch copy of /repo) in
@@ -343,13 +344,46 @@ func (r *rw) exprSeams(b *ast.BlockStmt) {
 		switch n := c.Node().(type) {
 		case *ast.FuncLit:
 			return false // nested literals are bodies of their own
+		case *ast.CommClause:
+			// the communication itself is rewritten together with the select (pass B)
+			if n.Comm != nil {
+				if r.comm == nil {
+					r.comm = map[ast.Node]bool{}
+				}
+				r.comm[n.Comm] = true
+				if nestedRecv(n.Comm) {
+					r.rep.Unmodelled = append(r.rep.Unmodelled, "receive nested inside a select communication at "+r.where(n.Pos()))
+				}
+			}
 		case *ast.SendStmt:
-			r.rep.Unmodelled = append(r.rep.Unmodelled, "channel send at "+r.where(n.Pos()))
-		case *ast.SelectStmt:
-			r.rep.Unmodelled = append(r.rep.Unmodelled, "select at "+r.where(n.Pos()))
+			if r.comm[n] {
+				return false
+			}
+			r.rep.Modelled = append(r.rep.Modelled, "channel send at "+r.where(n.Pos()))
+			c.Replace(&ast.ExprStmt{X: simCall("Send", n.Chan, n.Value)})
+		case *ast.ExprStmt:
+			if r.comm[n] {
+				return false
+			}
+		case *ast.AssignStmt:
+			if r.comm[n] {
+				return false
+			}
 		case *ast.UnaryExpr:
 			if n.Op == token.ARROW {
-				r.rep.Unmodelled = append(r.rep.Unmodelled, "channel receive at "+r.where(n.Pos()))
+				r.rep.Modelled = append(r.rep.Modelled, "channel receive at "+r.where(n.Pos()))
+				name := "Recv"
+				switch par := c.Parent().(type) {
+				case *ast.AssignStmt:
+					if len(par.Lhs) == 2 && len(par.Rhs) == 1 {
+						name = "Recv2"
+					}
+				case *ast.ValueSpec:
+					if len(par.Names) == 2 && len(par.Values) == 1 {
+						name = "Recv2"
+					}
+				}
+				c.Replace(simCall(name, n.X))
 			}
 		case *ast.SelectorExpr:
 			if selection := r.info.Selections[n]; selection != nil {
@@ -362,6 +396,24 @@ func (r *rw) exprSeams(b *ast.BlockStmt) {
 				}
 			}
 		case *ast.CallExpr:
+			if id, ok := n.Fun.(*ast.Ident); ok {
+				if _, isBuiltin := r.info.Uses[id].(*types.Builtin); isBuiltin {
+					switch id.Name {
+					case "close":
+						if len(n.Args) == 1 {
+							r.rep.Modelled = append(r.rep.Modelled, "close of a channel at "+r.where(n.Pos()))
+							c.Replace(simCall("Close", n.Args[0]))
+						}
+					case "make":
+						if t := r.info.TypeOf(n); t != nil {
+							if _, isChan := t.Underlying().(*types.Chan); isChan {
+								c.Replace(simCall("NewChan", n))
+							}
+						}
+					}
+				}
+				return true
+			}
 			sel, ok := n.Fun.(*ast.SelectorExpr)
 			if !ok {
 				return true
@@ -370,6 +422,27 @@ func (r *rw) exprSeams(b *ast.BlockStmt) {
 			if id, ok := sel.X.(*ast.Ident); ok {
 				if pn, ok := r.info.Uses[id].(*types.PkgName); ok {
 					switch pn.Imported().Path() {
+					case "runtime":
+						switch sel.Sel.Name {
+						case "NumCPU":
+							r.rep.ClockSeams = append(r.rep.ClockSeams, "runtime.NumCPU at "+r.where(n.Pos()))
+							c.Replace(simCall("NumProcs", n))
+						case "GOMAXPROCS":
+							r.rep.ClockSeams = append(r.rep.ClockSeams, "runtime.GOMAXPROCS at "+r.where(n.Pos()))
+							if lit, ok := n.Args[0].(*ast.BasicLit); ok && len(n.Args) == 1 && lit.Value == "0" {
+								c.Replace(simCall("NumProcs", n))
+							} else {
+								n.Fun = &ast.SelectorExpr{X: ast.NewIdent("verifsim"), Sel: ast.NewIdent("GOMAXPROCS")}
+								r.touched["runtime"] = true
+							}
+						}
+						return true
+					case "context":
+						switch sel.Sel.Name {
+						case "WithTimeout", "WithDeadline":
+							r.rep.Unmodelled = append(r.rep.Unmodelled, "context."+sel.Sel.Name+" (real clock) at "+r.where(n.Pos()))
+						}
+						return true
 					case "time":
 						switch sel.Sel.Name {
 						case "Now", "Since", "Until", "Sleep":
@@ -380,7 +453,11 @@ func (r *rw) exprSeams(b *ast.BlockStmt) {
 							r.rep.ClockSeams = append(r.rep.ClockSeams, "time.AfterFunc at "+r.where(n.Pos()))
 							n.Fun = &ast.SelectorExpr{X: ast.NewIdent("verifsim"), Sel: ast.NewIdent("AfterFunc")}
 							r.touched["time"] = true
-						case "After", "Tick", "NewTimer", "NewTicker":
+						case "After", "NewTimer":
+							r.rep.ClockSeams = append(r.rep.ClockSeams, "time."+sel.Sel.Name+" at "+r.where(n.Pos()))
+							n.Fun = &ast.SelectorExpr{X: ast.NewIdent("verifsim"), Sel: ast.NewIdent(sel.Sel.Name)}
+							r.touched["time"] = true
+						case "Tick", "NewTicker":
 							r.rep.Unmodelled = append(r.rep.Unmodelled, "time."+sel.Sel.Name+" at "+r.where(n.Pos()))
 						}
 						return true
@@ -454,9 +531,26 @@ func (r *rw) exprSeams(b *ast.BlockStmt) {
 				}
 				r.rep.Modelled = append(r.rep.Modelled, "Once.Do at "+r.where(n.Pos()))
 				c.Replace(simCall("OnceDo", recv, n.Args[0]))
-			case fn.Pkg().Path() == "sync" && isNamed(recvT, "sync", "WaitGroup") && fn.Name() == "Wait" && len(n.Args) == 0:
-				r.rep.Modelled = append(r.rep.Modelled, "WaitGroup.Wait at "+r.where(n.Pos()))
-				c.Replace(simCall("WaitGroupWait", &ast.SelectorExpr{X: sel.X, Sel: ast.NewIdent("Wait")}))
+			case fn.Pkg().Path() == "sync" && isNamed(recvT, "sync", "WaitGroup") && (fn.Name() == "Wait" || fn.Name() == "Add" || fn.Name() == "Done"):
+				xt := r.info.TypeOf(sel.X)
+				var recv ast.Expr
+				if _, isPtr := xt.(*types.Pointer); isPtr && isNamed(xt, "sync", "WaitGroup") {
+					recv = sel.X
+				} else if isNamed(xt, "sync", "WaitGroup") {
+					recv = &ast.UnaryExpr{Op: token.AND, X: sel.X}
+				}
+				if recv == nil {
+					// embedded WaitGroup: only Wait can be modelled (without the mirrored counter)
+					if fn.Name() == "Wait" {
+						r.rep.Modelled = append(r.rep.Modelled, "WaitGroup.Wait (embedded) at "+r.where(n.Pos()))
+						c.Replace(simCall("WaitGroupWait", &ast.SelectorExpr{X: sel.X, Sel: ast.NewIdent("Wait")}))
+					}
+					return true
+				}
+				if fn.Name() == "Wait" {
+					r.rep.Modelled = append(r.rep.Modelled, "WaitGroup.Wait at "+r.where(n.Pos()))
+				}
+				c.Replace(simCall("WG"+fn.Name(), append([]ast.Expr{recv}, n.Args...)...))
 			case fn.Pkg().Path() == "sync" && isNamed(recvT, "sync", "Cond") && fn.Name() == "Wait":
 				r.rep.Unmodelled = append(r.rep.Unmodelled, "sync "+fn.Name()+" at "+r.where(n.Pos()))
 			}
@@ -485,6 +579,15 @@ func (r *rw) list(l []ast.Stmt, entry bool, at token.Pos) []ast.Stmt {
 			r.rep.NSync++
 		}
 		pre := r.stmt(s)
+		if p2, repl := r.chanStmt(s); repl != nil {
+			pre = append(pre, p2...)
+			s = repl
+		} else if ls, ok := s.(*ast.LabeledStmt); ok {
+			if p2, repl := r.chanStmt(ls.Stmt); repl != nil {
+				pre = append(pre, p2...)
+				ls.Stmt = repl
+			}
+		}
 		if g, ok := s.(*ast.GoStmt); ok {
 			var repl ast.Stmt
 			pre, repl = r.goStmt(g)
@@ -663,7 +766,7 @@ func (r *rw) callsSync(s ast.Stmt) bool {
 			return false
 		case *ast.CallExpr:
 			if sel, ok := x.Fun.(*ast.SelectorExpr); ok {
-				if id, ok := sel.X.(*ast.Ident); ok && id.Name == "verifsim" && (sel.Sel.Name == "Lock" || sel.Sel.Name == "OnceDo" || sel.Sel.Name == "WaitGroupWait") {
+				if id, ok := sel.X.(*ast.Ident); ok && id.Name == "verifsim" && (sel.Sel.Name == "Lock" || sel.Sel.Name == "OnceDo" || sel.Sel.Name == "WaitGroupWait" || sel.Sel.Name == "WGWait" || sel.Sel.Name == "WGAdd" || sel.Sel.Name == "WGDone" || sel.Sel.Name == "Send" || sel.Sel.Name == "Recv" || sel.Sel.Name == "Recv2" || sel.Sel.Name == "Close" || sel.Sel.Name == "Select") {
 					found = true
 					return false
 				}
@@ -757,4 +860,146 @@ func (r *rw) isStore(s ast.Stmt) bool {
 		}
 	}
 	return false
+}
+
+// ---- channels ---------------------------------------------------------------
+
+func nestedRecv(comm ast.Stmt) bool {
+	found := false
+	depth := 0
+	ast.Inspect(comm, func(n ast.Node) bool {
+		if u, ok := n.(*ast.UnaryExpr); ok && u.Op == token.ARROW {
+			depth++
+			if depth > 1 {
+				found = true
+			}
+		}
+		return true
+	})
+	if _, isSend := comm.(*ast.SendStmt); isSend && depth > 0 {
+		found = true
+	}
+	return found
+}
+
+func isChanType(t types.Type) bool {
+	if t == nil {
+		return false
+	}
+	_, ok := t.Underlying().(*types.Chan)
+	return ok
+}
+
+func allBlank(l []ast.Expr) bool {
+	for _, e := range l {
+		if !isBlank(e) {
+			return false
+		}
+	}
+	return true
+}
+
+// chanStmt rewrites the two statement forms that block on channels: range over
+// a channel and select. It returns statements to place before s and the
+// statement that replaces s (nil: s is not such a statement).
+func (r *rw) chanStmt(s ast.Stmt) (pre []ast.Stmt, repl ast.Stmt) {
+	switch s := s.(type) {
+	case *ast.RangeStmt:
+		if !isChanType(r.info.TypeOf(s.X)) {
+			return nil, nil
+		}
+		r.tmpN++
+		ch := ast.NewIdent(fmt.Sprintf("verifCh%d", r.tmpN))
+		val := ast.NewIdent(fmt.Sprintf("verifVal%d", r.tmpN))
+		okv := ast.NewIdent(fmt.Sprintf("verifOk%d", r.tmpN))
+		pre = []ast.Stmt{&ast.AssignStmt{Lhs: []ast.Expr{ch}, Tok: token.DEFINE, Rhs: []ast.Expr{s.X}}}
+		head := []ast.Stmt{
+			&ast.AssignStmt{Lhs: []ast.Expr{val, okv}, Tok: token.DEFINE, Rhs: []ast.Expr{simCall("Recv2", ch)}},
+			&ast.IfStmt{Cond: &ast.UnaryExpr{Op: token.NOT, X: okv}, Body: &ast.BlockStmt{List: []ast.Stmt{&ast.BranchStmt{Tok: token.BREAK}}}},
+		}
+		if isBlank(s.Key) {
+			head = append(head, &ast.AssignStmt{Lhs: []ast.Expr{ast.NewIdent("_")}, Tok: token.ASSIGN, Rhs: []ast.Expr{val}})
+		} else {
+			head = append(head, &ast.AssignStmt{Lhs: []ast.Expr{s.Key}, Tok: s.Tok, Rhs: []ast.Expr{val}})
+		}
+		s.Body.List = append(head, s.Body.List...)
+		r.rep.Modelled = append(r.rep.Modelled, "range over channel at "+r.where(s.Pos()))
+		return pre, &ast.ForStmt{For: s.For, Body: s.Body}
+	case *ast.SelectStmt:
+		r.tmpN++
+		n := r.tmpN
+		sel := ast.NewIdent(fmt.Sprintf("verifSel%d", n))
+		hasDefault := "false"
+		var cases []ast.Expr
+		var clauses []ast.Stmt
+		idx := 0
+		for _, cl := range s.Body.List {
+			cc, ok := cl.(*ast.CommClause)
+			if !ok {
+				continue
+			}
+			if cc.Comm == nil {
+				hasDefault = "true"
+				clauses = append(clauses, &ast.CaseClause{List: []ast.Expr{&ast.UnaryExpr{Op: token.SUB, X: intLit(1)}}, Body: cc.Body})
+				continue
+			}
+			ch := ast.NewIdent(fmt.Sprintf("verifSel%dc%d", n, idx))
+			var bind ast.Stmt
+			switch cm := cc.Comm.(type) {
+			case *ast.SendStmt:
+				pre = append(pre, &ast.AssignStmt{Lhs: []ast.Expr{ch}, Tok: token.DEFINE, Rhs: []ast.Expr{cm.Chan}})
+				cases = append(cases, simCall("SendCase", ch, cm.Value))
+			case *ast.ExprStmt:
+				u, _ := unparen(cm.X).(*ast.UnaryExpr)
+				if u == nil {
+					return nil, nil
+				}
+				pre = append(pre, &ast.AssignStmt{Lhs: []ast.Expr{ch}, Tok: token.DEFINE, Rhs: []ast.Expr{u.X}})
+				cases = append(cases, simCall("RecvCase", ch))
+			case *ast.AssignStmt:
+				if len(cm.Rhs) != 1 {
+					return nil, nil
+				}
+				u, _ := unparen(cm.Rhs[0]).(*ast.UnaryExpr)
+				if u == nil {
+					return nil, nil
+				}
+				pre = append(pre, &ast.AssignStmt{Lhs: []ast.Expr{ch}, Tok: token.DEFINE, Rhs: []ast.Expr{u.X}})
+				cases = append(cases, simCall("RecvCase", ch))
+				tok := cm.Tok
+				if allBlank(cm.Lhs) {
+					tok = token.ASSIGN
+				}
+				fn := "SelRecv"
+				if len(cm.Lhs) == 2 {
+					fn = "SelRecv2"
+				}
+				bind = &ast.AssignStmt{Lhs: cm.Lhs, Tok: tok, Rhs: []ast.Expr{simCall(fn, ch, sel)}}
+			default:
+				return nil, nil
+			}
+			// keep the channel temporaries "used" even if a clause needs none of them later
+			body := cc.Body
+			if bind != nil {
+				body = append([]ast.Stmt{bind}, body...)
+			}
+			clauses = append(clauses, &ast.CaseClause{List: []ast.Expr{intLit(idx)}, Body: body})
+			idx++
+		}
+		args := append([]ast.Expr{ast.NewIdent(hasDefault)}, cases...)
+		pre = append(pre, &ast.AssignStmt{Lhs: []ast.Expr{sel}, Tok: token.DEFINE, Rhs: []ast.Expr{simCall("Select", args...)}})
+		r.rep.Modelled = append(r.rep.Modelled, "select at "+r.where(s.Pos()))
+		return pre, &ast.SwitchStmt{Switch: s.Select, Tag: &ast.SelectorExpr{X: sel, Sel: ast.NewIdent("Index")}, Body: &ast.BlockStmt{List: clauses}}
+	}
+	return nil, nil
+}
+
+func unparen(e ast.Expr) ast.Expr {
+	for {
+		p, ok := e.(*ast.ParenExpr)
+		if !ok {
+			return e
+		}
+		e = p.X
+	}
 }
